@@ -81,11 +81,18 @@ func (p *regExpParser) scan() {
 // (...)
 func (p *regExpParser) scanGroup() {
 	str := p.str[p.chrOffset:]
-	if len(str) > 1 { // A possibility of (?= or (?!
-		if str[0] == '?' {
-			if str[1] == '=' || str[1] == '!' {
-				p.error(-1, "re2: Invalid (%s) <lookahead>", p.str[p.chrOffset:p.chrOffset+2])
-			}
+	if len(str) > 0 && str[0] == '?' {
+		switch {
+		case len(str) > 1 && str[1] == ':':
+			// (?: ... ) non-capturing group
+		case len(str) > 1 && (str[1] == '=' || str[1] == '!'):
+			p.error(-1, "re2: Invalid (%s) <lookahead>", p.str[p.chrOffset:p.chrOffset+2])
+		default:
+			// ECMAScript 5 (15.10.1) knows only (?: (?= (?! - everything else, such as the
+			// re2 flag groups (?i) (?s:...) or named groups (?P<name>...), is a syntax error
+			// and must not be handed to re2, which would give it a meaning.
+			p.error(-1, "Invalid group")
+			p.invalid = true
 		}
 	}
 	for p.chr != -1 && p.chr != ')' {
